@@ -490,7 +490,7 @@ for _p in ('C18', 'C13'):
     PROPS[_p]['contracts'] = PROPS[_p]['contracts'] + ANY_GUIDED
 # an indefinite-length element collected for an enclosing ANY keeps its own end-of-octets (C02-m8a): CER wraps every
 # constructed value that way
-for _p in ('C18', 'C02', 'C01', 'C09'):
+for _p in ('C18', 'C02', 'C01', 'C09', 'C07'):
     PROPS[_p]['contracts'] = PROPS[_p]['contracts'] + [
         (UN, 'ber.decoder::AnyPayloadDecoder.indefLenValueDecoder[untagged,as-fragment,complete]')] + \
         ([ANY_GUIDED[0]] if _p in ('C02', 'C01') else [])
